@@ -1,7 +1,8 @@
 """C15 projection of a finished run: what the built-in report writers left on disk.
 
 project(env) reads <outdir>/out_json.txt (or out_json_pretty.txt), out_plain.txt, out_progress.txt, out_progress2.txt,
-out_progress3.txt -- whichever exist -- and returns (every key always present, neutral defaults, no null):
+out_progress3.txt -- whichever exist; for a formatter the case ran WITHOUT -o (case["stdout_formats"], appended to the
+command line behind the formatters that have a file) the text the run wrote to the real stdout -- and returns (every key always present, neutral defaults, no null):
   json     {present, valid (json.loads succeeded and gave a list), features: [{el, status, els: [{type, el, status,
             steps: [{pos, match, status}]}]}]}      el = abstract id at the element's `location` (0 = nothing starts
             there), status "" = key absent or null; step pos = abstract position in its scenario via the `fbg k` /
@@ -36,11 +37,18 @@ _P3 = re.compile(r"^\s+((?:S\d+)|(?:O\d+ -- @\d+\.\d+ ))  ([%s]*)$" % re.escape(
 
 
 def _read(path):
+    if isinstance(path, tuple):             # ("stdout", text): the report of a formatter without -o
+        return path[1]
     with open(path, encoding="utf-8", errors="replace") as fh:
         return fh.read()
 
 
-def _first(outdir, names):
+def _first(outdir, names, env=None, formats=()):
+    """where the report of one of `formats` is: the real stdout of the run if the case ran that formatter without -o
+    (case["stdout_formats"]), else the first existing file of `names`"""
+    on_stdout = ((env.case or {}).get("stdout_formats") or []) if env is not None else []
+    if any(f in on_stdout for f in formats):
+        return ("stdout", env.real_out or "")
     for n in names:
         p = os.path.join(outdir, n)
         if os.path.exists(p):
@@ -128,7 +136,8 @@ def _readback(path, data, M):
     out["done"] = True
     from behave import json_parser
     try:
-        json_parser.parse(path)
+        if not isinstance(path, tuple):                     # parse() reads a file
+            json_parser.parse(path)
     except Exception as x:                                  # noqa -- recorded, judged by C15.json_readback
         out["parse_exc"] = type(x).__name__
     try:
@@ -225,15 +234,15 @@ def project(env):
     M = _Map(env)
     d = env.outdir
     out = {"error": ""}
-    jpath = _first(d, ["out_json.txt", "out_json_pretty.txt"])
+    jpath = _first(d, ["out_json.txt", "out_json_pretty.txt"], env, ("json", "json.pretty"))
     try:
         out["json"], data = _json(jpath, M)
         out["readback"] = _readback(jpath, data, M)
         out["tables"] = _tables(data, M, env)
-        out["plain"] = _plain(_first(d, ["out_plain.txt"]), M)
-        out["p1"] = _p2(_first(d, ["out_progress.txt"]), M)
-        out["p2"] = _p2(_first(d, ["out_progress2.txt"]), M)
-        out["p3"] = _p3(_first(d, ["out_progress3.txt"]), M)
+        out["plain"] = _plain(_first(d, ["out_plain.txt"], env, ("plain",)), M)
+        out["p1"] = _p2(_first(d, ["out_progress.txt"], env, ("progress",)), M)
+        out["p2"] = _p2(_first(d, ["out_progress2.txt"], env, ("progress2",)), M)
+        out["p3"] = _p3(_first(d, ["out_progress3.txt"], env, ("progress3",)), M)
     except (OSError, UnicodeError) as x:
         out = {"error": type(x).__name__, "json": {"present": False, "valid": False, "features": []},
                "readback": {"done": False, "parse_exc": "", "exc": "", "line_is_text": False, "features": [], "tables": []},
